@@ -94,6 +94,15 @@ func numGrammarEval(cs numCase) []core.Finding {
 	return nil
 }
 
+// smallExponent: no exponent, or one of at most two significant digits.
+func smallExponent(t string) bool {
+	i := strings.IndexAny(t, "eE")
+	if i < 0 {
+		return true
+	}
+	return len(strings.TrimLeft(strings.TrimLeft(t[i+1:], "+-"), "0")) <= 2
+}
+
 // expBeyondLimit: the text has an exponent whose absolute value exceeds 10^6.
 func expBeyondLimit(t string) bool {
 	i := strings.IndexAny(t, "eE")
@@ -370,6 +379,52 @@ func runC13(c *core.Ctx) error {
 	})
 	c.Set("grammar_strings_len", n)
 	c.Set("accepted_small_texts", len(accepted))
+	// the same recogniser run over longer texts: spellings of the exponent (leading zeros, explicit signs, many digits,
+	// the implementation's limit of 10^6 on both sides), long integer and fraction parts
+	{
+		classIdx := map[string]int{}
+		for i, cl := range a.Classes {
+			classIdx[cl] = i
+		}
+		run := func(t string) bool {
+			in := make([]int, len(t))
+			for i := 0; i < len(t); i++ {
+				ch := string(t[i])
+				switch {
+				case t[i] >= '1' && t[i] <= '9':
+					ch = "5"
+				case strings.ContainsRune("-+.0eE", rune(t[i])):
+				default:
+					ch = "x"
+				}
+				in[i] = classIdx[ch]
+			}
+			st := a.Run(in)
+			return len(st) == len(in)+1 && final[tlc.Str(a.State[st[len(st)-1]]["ctl"])]
+		}
+		var long []string
+		for _, mant := range []string{"1", "-12.5", "0.25", "9"} {
+			for _, e := range []string{"e", "E"} {
+				for _, sign := range []string{"", "+", "-"} {
+					for _, digits := range []string{"2", "02", "00000002", "0000000000000000000002", "0", "000", "1000000", "01000000", "999999", "0999999", "1000001", "12345678", ""} {
+						long = append(long, mant+e+sign+digits)
+					}
+				}
+			}
+		}
+		long = append(long, "1"+strings.Repeat("0", 400), "0."+strings.Repeat("0", 400)+"1", "-"+strings.Repeat("9", 1000)+"."+strings.Repeat("9", 1000), "1e+-2", "1e2e3", "1e2.5", "1e 2")
+		for _, t := range long {
+			cs := numCase{Kind: "grammar", Text: t, Want: run(t)}
+			c.CountEval(1)
+			c.Nontrivial("long:" + t)
+			c.Report(cs, numGrammarEval(cs))
+			// value observations only for the short spellings (an exponent of 10^6 is a million digits for the trace)
+			if cs.Want && len(t) <= 30 && smallExponent(t) {
+				accepted = append(accepted, t)
+			}
+		}
+		c.Set("grammar_long_texts", len(long))
+	}
 	// (3) traces
 	var items []numTraceItem
 	add := func(cs numCase) {
